@@ -1128,7 +1128,7 @@ private:
 
   void _skipWhitespace()
   {
-    while (_pos < _text.size() && std::isspace(_text[_pos]))
+    while (_pos < _text.size() && std::isspace(static_cast<unsigned char>(_text[_pos])))
     {
       ++_pos;
     }
@@ -1217,7 +1217,7 @@ private:
     if (_text[_pos] == '-')
       ++_pos;
 
-    if (_pos >= _text.size() || !std::isdigit(_text[_pos]))
+    if (_pos >= _text.size() || !std::isdigit(static_cast<unsigned char>(_text[_pos])))
     {
       _error = "Invalid number format";
       return false;
@@ -1230,7 +1230,7 @@ private:
     }
     else
     {
-      while (_pos < _text.size() && std::isdigit(_text[_pos]))
+      while (_pos < _text.size() && std::isdigit(static_cast<unsigned char>(_text[_pos])))
       {
         ++_pos;
       }
@@ -1242,12 +1242,12 @@ private:
     {
       hasDecimal = true;
       ++_pos;
-      if (_pos >= _text.size() || !std::isdigit(_text[_pos]))
+      if (_pos >= _text.size() || !std::isdigit(static_cast<unsigned char>(_text[_pos])))
       {
         _error = "Invalid number format";
         return false;
       }
-      while (_pos < _text.size() && std::isdigit(_text[_pos]))
+      while (_pos < _text.size() && std::isdigit(static_cast<unsigned char>(_text[_pos])))
       {
         ++_pos;
       }
@@ -1262,12 +1262,12 @@ private:
       {
         ++_pos;
       }
-      if (_pos >= _text.size() || !std::isdigit(_text[_pos]))
+      if (_pos >= _text.size() || !std::isdigit(static_cast<unsigned char>(_text[_pos])))
       {
         _error = "Invalid number format";
         return false;
       }
-      while (_pos < _text.size() && std::isdigit(_text[_pos]))
+      while (_pos < _text.size() && std::isdigit(static_cast<unsigned char>(_text[_pos])))
       {
         ++_pos;
       }
